@@ -4,6 +4,8 @@
 (***************************************************************************)
 EXTENDS XPath, Json
 
+CONSTANT OpenFx   \* the open known-finding switches (set of strings); {} = the ideal semantics only
+
 U1 == <<"u", "1">>
 U2 == <<"u", "2">>
 Nm(sp, lo) == [sp |-> sp, lo |-> lo]
@@ -41,14 +43,23 @@ EnvNs(ns) == [ns |-> ns, vars |-> <<>>, funcs |-> <<>>]
 
 \* JSON shape of a value: node-sets as ascending id sequences
 JV(v) == IF v.t = "ns" THEN [t |-> "ns", v |-> Asc(v.v)] ELSE v
-Case(dd, env, n, e) == [ctx |-> n, e |-> e, r |-> JV(Eval(dd, env, e, Ctx(n)))]
+WithFx(env) == [ns |-> env.ns, vars |-> env.vars, funcs |-> env.funcs, fx |-> OpenFx]
+\* r: the value the property demands; k (only when it differs): the value the code is recorded to
+\* produce instead under the open known findings
+Case(dd, env, n, e) ==
+  LET r == JV(Eval(dd, env, e, Ctx(n))) base == [ctx |-> n, e |-> e, r |-> r, env |-> env] IN
+  IF ~Affected(e, OpenFx) THEN base
+  ELSE LET k == JV(Eval(dd, WithFx(env), e, Ctx(n))) IN IF k = r THEN base ELSE [ctx |-> n, e |-> e, r |-> r, env |-> env, k |-> k]
 \* one output line: a document, an environment and the cases evaluated on it
 EmitLine(fam, dd, env, cases) == PrintT(ToJson([fam |-> fam, doc |-> dd, env |-> env, cases |-> cases]))
 SeqOfSet(S) == SetToSeq(S)
 \* compact form: the expression pool is printed once (by an ASSUME), a case is
 \* <<context node, index into the pool, expected value>>
 EmitPool(fam, pool) == PrintT(ToJson([fam |-> fam, pool |-> pool]))
-CCase(dd, env, n, pool, i) == <<n, i, JV(Eval(dd, env, pool[i], Ctx(n)))>>
+CCase(dd, env, n, pool, i) ==
+  LET r == JV(Eval(dd, env, pool[i], Ctx(n))) IN
+  IF ~Affected(pool[i], OpenFx) THEN <<n, i, r>>
+  ELSE LET k == JV(Eval(dd, WithFx(env), pool[i], Ctx(n))) IN IF k = r THEN <<n, i, r>> ELSE <<n, i, r, k>>
 AllCCases(dd, env, pool) == [k \in 1..(Len(dd) * Len(pool)) |->
    CCase(dd, env, ((k - 1) \div Len(pool)) + 1, pool, ((k - 1) % Len(pool)) + 1)]
 =============================================================================
